@@ -4,6 +4,7 @@ import Driver.Ops.ConstraintGen
 import Driver.Ops.Fs
 import Driver.Ops.Compile
 import Driver.Ops.Denote
+import Driver.Ops.Finish
 import Driver.Ops.Ssm
 /-! Registry of operation handlers: each model area adds one import above and one entry below. -/
 open Lean
@@ -15,6 +16,7 @@ def handlers : List (String → Json → Option Json) := [
   Fs.handle?,
   Compile.handle?,
   DenoteOps.handle?,
+  FinishOps.handle?,
   Ssm.handle?
 ]
 
